@@ -7,6 +7,7 @@ import (
 	"os"
 	"path"
 	"sort"
+	"strings"
 	"syscall"
 )
 
@@ -229,6 +230,46 @@ func tail(d []byte, from int) []byte {
 		return nil
 	}
 	return append([]byte(nil), d[from:]...)
+}
+
+// pathOfNode: the present name of a directory node (by search from the root), "" if it is no longer in the tree.
+func pathOfNode(cur *Node, at string, want *Node) string {
+	if cur == want {
+		if at == "" {
+			return "/"
+		}
+		return at
+	}
+	if cur.Kind != KDir {
+		return ""
+	}
+	names := make([]string, 0, len(cur.Children))
+	for name := range cur.Children {
+		names = append(names, name)
+	}
+	sort.Strings(names)
+	for _, name := range names {
+		if p := pathOfNode(cur.Children[name], at+"/"+name, want); p != "" {
+			return p
+		}
+	}
+	return ""
+}
+
+// Chdir on an open directory (fchdir): the directory by identity, whatever it is called by now.
+func (h *Handle) Chdir() error {
+	Yield("fchdir " + h.Path)
+	p := ""
+	if h.n != nil && h.n.Kind == KDir {
+		p = pathOfNode(TheFS.Root, "", h.n)
+	}
+	if p == "" {
+		logOp("chdir", h.Path, "ENOENT", 0, false, false)
+		return perr("chdir", h.Path, syscall.ENOENT)
+	}
+	TheFS.Cwd = p
+	logOp("chdir", p, "ok", 0, false, false)
+	return nil
 }
 
 func (h *Handle) Close() error {
@@ -501,6 +542,12 @@ func RenameRaw(oa, na string) syscall.Errno {
 	replaced := np.Children[nn]
 	delete(op.Children, on)
 	np.Children[nn] = n
+	// a process is in its working directory by identity, not by name: if that directory or one above it was moved,
+	// getcwd reports the new name from now on
+	if n.Kind == KDir && (TheFS.Cwd == oa || strings.HasPrefix(TheFS.Cwd, oa+"/")) {
+		TheFS.Cwd = na + TheFS.Cwd[len(oa):]
+		Probe("working_directory_moved")
+	}
 	op.Mtime = now()
 	np.Mtime = now()
 	notify(oa, EvRename)
